@@ -14,7 +14,12 @@ THEOREMS = [
     "Rtosc.Ring.seq_refines_queue", "Rtosc.Ring.drop_whole", "Rtosc.Ring.lookahead_replays",
     "Rtosc.Ring.read_resyncs_lookahead",
     "Rtosc.Ring.conc_inv", "Rtosc.Ring.conc_drf", "Rtosc.Ring.conc_fifo", "Rtosc.Ring.conc_lossless",
-    "Rtosc.Ring.hasNext_exact", "Rtosc.Ring.bundle_not_self_delimiting_counterexample",
+    "Rtosc.Ring.hasNext_exact", "Rtosc.Ring.conc_accept_exact", "Rtosc.Ring.conc_publish",
+    # the same, instantiated with the model of rtosc_message_ring_length (C01) on encoded OSC messages
+    "Rtosc.Ring.framing_osc", "Rtosc.Ring.rawLen_msg", "Rtosc.Ring.seq_refines_queue_osc", "Rtosc.Ring.drop_whole_osc",
+    "Rtosc.Ring.conc_inv_osc", "Rtosc.Ring.conc_drf_osc", "Rtosc.Ring.conc_fifo_osc", "Rtosc.Ring.conc_lossless_osc",
+    "Rtosc.Ring.hasNext_exact_osc", "Rtosc.Ring.conc_accept_exact_osc",
+    "Rtosc.Ring.bundle_not_self_delimiting_counterexample", "Rtosc.Ring.raw_write_bundle_hang_counterexample",
 ]
 HARNESS = {"src": ["tlink.cpp"], "exclude": ["src/cpp/thread-link.cpp"], "deps": ["common.h", "tl_sched.h"]}
 STATELESS = True
@@ -76,29 +81,60 @@ def unhx(s):
 LETTERS = b"abcxyz/0"
 
 
+def rand_args(rng, tags_pool=b"iiifsbhTFcSdNmtrI", ntags=None):
+    ntags = rng.choice([0, 1, 1, 1, 2, 2, 3]) if ntags is None else ntags
+    tags = b""
+    args = b""
+    for _ in range(ntags):
+        t = rng.choice(tags_pool)
+        tags += bytes([t])
+        if t in b"ifcrm":
+            args += struct.pack(">I", rng.choice([0, 1, 42, 0x2c000000, 0x2f610000, 0xffffffff, rng.getrandbits(32)]))
+        elif t in b"htd":
+            args += struct.pack(">Q", rng.choice([0, 7, rng.getrandbits(64)]))
+        elif t in b"sS":
+            args += pad(bytes(rng.choice(b"ab,/#") for _ in range(rng.randint(0, 6))))
+        elif t == ord("b"):
+            n = rng.randint(0, 9)
+            blob = bytes(rng.choice([0, 0x2c, 0x2f, 1, 255]) for _ in range(n))
+            args += struct.pack(">I", n) + blob + b"\0" * ((4 - n % 4) % 4)
+    return tags, args
+
+
 def rand_msg(rng, target=None):
     """A valid OSC message; `target`: aim at this many bytes (multiple of 4, >= 8)."""
+    if target is not None and target > 44:
+        # path, a few random arguments, and one filler argument (blob or string) that makes up the size
+        for _ in range(20):
+            plen = rng.choice([1, 2, 3, 4, 5, 7, 8, 11, 12, 30])
+            path = b"/" + bytes(rng.choice(LETTERS[:6]) for _ in range(plen - 1))
+            tags, args = rand_args(rng, ntags=rng.choice([0, 0, 1, 2]))
+            fill = rng.choice(b"bbs")
+            front = rng.random() < 0.5
+            tags2 = (bytes([fill]) + tags) if front else (tags + bytes([fill]))
+            rest = target - len(pad(path)) - len(pad(b"," + tags2)) - len(args)
+            if fill == ord("b"):
+                if rest < 4:
+                    continue
+                n = rest - 4 - rng.randint(0, 3)
+                if n < 0:
+                    n = rest - 4
+                body = bytes(rng.choice([0, 0x2c, 0x2f, 0x23, 1, 255, rng.randrange(256)]) for _ in range(n))
+                f = struct.pack(">I", n) + body + b"\0" * ((4 - n % 4) % 4)
+            else:
+                if rest < 4:
+                    continue
+                n = rest - rng.randint(1, 4)
+                f = pad(bytes(rng.choice(b"ab,/#xyz") for _ in range(n)))
+            m = pad(path) + pad(b"," + tags2) + (f + args if front else args + f)
+            if len(m) == target:
+                return m
     for _ in range(50):
         plen = rng.choice([1, 1, 2, 3, 4, 5, 7, 8, 11])
         if target is not None and target <= 12:
             plen = rng.randint(1, 3) if target == 8 else rng.choice([1, 2, 3, 4, 5, 6, 7])
         path = b"/" + bytes(rng.choice(LETTERS[:6]) for _ in range(plen - 1))
-        ntags = rng.choice([0, 1, 1, 1, 2, 2, 3])
-        tags = b""
-        args = b""
-        for _ in range(ntags):
-            t = rng.choice(b"iiifsbhTFcSdNmtrI")
-            tags += bytes([t])
-            if t in b"ifcrm":
-                args += struct.pack(">I", rng.choice([0, 1, 42, 0x2c000000, 0x2f610000, 0xffffffff, rng.getrandbits(32)]))
-            elif t in b"htd":
-                args += struct.pack(">Q", rng.choice([0, 7, rng.getrandbits(64)]))
-            elif t in b"sS":
-                args += pad(bytes(rng.choice(b"ab,/#") for _ in range(rng.randint(0, 6))))
-            elif t == ord("b"):
-                n = rng.randint(0, 9)
-                blob = bytes(rng.choice([0, 0x2c, 0x2f, 1, 255]) for _ in range(n))
-                args += struct.pack(">I", n) + blob + b"\0" * ((4 - n % 4) % 4)
+        tags, args = rand_args(rng)
         m = pad(path) + pad(b"," + tags) + args
         if target is None or len(m) == target:
             return m
@@ -134,6 +170,9 @@ def wmsg(tok):
 # ---------------------------------------------------------------------------------------
 RINGS = [(8, 2), (16, 1), (8, 3), (12, 2), (13, 2), (16, 2), (10, 3), (20, 2), (16, 3), (32, 2), (21, 3), (16, 4),
          (32, 4), (9, 2), (24, 1), (11, 3)]
+# rings beyond 255 / 65535 bytes: byte counts that do not fit a narrower integer type
+BIG_RINGS = [(64, 8), (100, 7), (256, 5), (1024, 3), (48, 11), (128, 2), (255, 3)]
+HUGE_RING = (1024, 70)
 
 
 def msg_for_ring(rng, maxMsg, oversize_p=0.12):
@@ -141,17 +180,20 @@ def msg_for_ring(rng, maxMsg, oversize_p=0.12):
     if rng.random() < oversize_p:
         return rand_msg(rng, (maxMsg // 4 + 1) * 4 + rng.choice([0, 0, 4, 8]))
     # favour small messages on small rings, but hit MaxMsg exactly now and then
-    if maxMsg % 4 == 0 and rng.random() < 0.15:
-        return rand_msg(rng, maxMsg)
+    if rng.random() < 0.15:
+        return rand_msg(rng, maxMsg - maxMsg % 4)
+    if maxMsg > 48 and rng.random() < 0.5:
+        return rand_msg(rng, rng.choice(sizes))
     return rand_msg(rng, rng.choice(sizes[:4]))
 
 
 def wtoken(rng, m):
-    return rng.choice("wwaxx") + hx(m)
+    # w write(), a writeArray(), x raw_write(block), b compose in buffer() + raw_write(buffer())
+    return rng.choice("wwaxxb") + hx(m)
 
 
 def gen_seq(rng, stats, bundles=False):
-    maxMsg, nmsgs = rng.choice(RINGS)
+    maxMsg, nmsgs = rng.choice(BIG_RINGS) if (not bundles and rng.random() < 0.06) else rng.choice(RINGS)
     n = rng.randint(5, 40)
     ops = []
     pw = rng.choice([0.3, 0.45, 0.6])
@@ -170,12 +212,105 @@ def gen_seq(rng, stats, bundles=False):
     return "seq %d %d %s" % (maxMsg, nmsgs, " ".join(ops))
 
 
+def split_sizes(rng, total, maxMsg):
+    """message sizes (multiples of 4, 8..maxMsg) that add up to `total`, or None"""
+    top = maxMsg - maxMsg % 4
+    if total % 4 or total < 8 or top < 8:
+        return None
+    out = []
+    left = total
+    while left > 0:
+        if left <= top and (left >= 8):
+            if left >= 16 and rng.random() < 0.6:
+                k = rng.randrange(8, min(top, left - 8) + 1, 4)
+            else:
+                k = left
+        else:
+            k = rng.randrange(8, top + 1, 4) if rng.random() < 0.5 else top
+            if left - k < 8 and left - k != 0:
+                k = left - 8
+                if k < 8 or k > top:
+                    return None
+        out.append(k)
+        left -= k
+    return out
+
+
+def gen_seq_fill(rng, stats, ring=None):
+    """Directed history: the number of queued bytes is steered to a boundary value - a multiple of
+    256 or of 65536 (a byte count that a narrower integer type would truncate to 0), the capacity
+    of the ring, one message short of it - with hasNext/hasNextLookahead/lookahead reads asked
+    there; the ring is rotated first so that the boundary is also met in the wrapped state."""
+    maxMsg, nmsgs = ring or rng.choice(BIG_RINGS + [(32, 8), (64, 4), (16, 16), (128, 4)])
+    N = maxMsg * nmsgs
+    cap = N - 1
+    targets = [t for t in range(256, cap + 1, 256)]
+    if cap >= 65536:
+        targets = [65536] * 3 + targets[:4]
+    targets += [cap - cap % 4, cap - cap % 4 - 4]
+    ops = []
+    # rotate
+    for _ in range(rng.choice([0, 1, 1, 2, 3])):
+        ops.append(wtoken(rng, rand_msg(rng, rng.randrange(8, maxMsg - maxMsg % 4 + 1, 4))))
+        ops.append("r")
+    used = 0
+    for _ in range(rng.choice([1, 1, 2, 3])):
+        t = rng.choice(targets)
+        if t <= used:
+            # read down to below the target first
+            ops.extend(["r"] * rng.randint(1, 6))
+            break
+        sizes = split_sizes(rng, t - used, maxMsg)
+        if not sizes:
+            break
+        for k in sizes:
+            ops.append(wtoken(rng, rand_msg(rng, k)))
+        used = t
+        ops.extend(rng.choice([["h", "k"], ["h", "k", "l", "k"], ["k", "h", "l"], ["h"]]))
+        if rng.random() < 0.5:
+            ops.append(wtoken(rng, rand_msg(rng, rng.choice([8, 12, 16]))))    # one more: fits / does not fit
+            ops.extend(["h", "k"])
+        if rng.random() < 0.4:
+            ops.extend(["r", "h", "k"])
+            used = -1      # unknown from here on (the extra write may or may not have been accepted)
+            break
+    ops.extend(rng.choice([["r", "h"], ["l", "l", "r", "k", "h"], []]))
+    stats["fill"] = stats.get("fill", 0) + 1
+    stats["ring_sizes"][str(N)] = stats["ring_sizes"].get(str(N), 0) + 1
+    return "seq %d %d %s" % (maxMsg, nmsgs, " ".join(ops))
+
+
+def hang_block(rng):
+    """finding C06-K6: a bundle whose chain of element sizes leads `unsigned pos` back to a position it has
+    already visited (one element of size 0xfffffffc, or two elements whose sizes add up to 2^32 - 8)"""
+    head = b"#bundle\0" + b"\0" * 8
+    if rng.random() < 0.5:
+        body = struct.pack(">I", 0xfffffffc) + rand_msg(rng, rng.choice([8, 12]))
+    else:
+        m = rand_msg(rng, rng.choice([8, 12]))
+        body = struct.pack(">I", len(m)) + m + struct.pack(">I", (1 << 32) - 8 - len(m)) + rand_msg(rng, 8)
+    return head + body + b"\0" * 4
+
+
+def gen_seq_hang(rng, stats):
+    maxMsg, nmsgs = rng.choice([(32, 2), (48, 2), (64, 4)])
+    ops = []
+    for _ in range(rng.randint(0, 3)):
+        ops.append(wtoken(rng, msg_for_ring(rng, maxMsg, 0)))
+        ops.append(rng.choice("rlh"))
+    ops.append("x" + hx(hang_block(rng)))
+    ops.extend(["h", "r"])
+    stats["seq_hang"] = stats.get("seq_hang", 0) + 1
+    return "seq %d %d %s" % (maxMsg, nmsgs, " ".join(ops))
+
+
 SMALL_RINGS = [(8, 2), (16, 1), (12, 2), (13, 2), (8, 3), (10, 2), (9, 2), (20, 1), (16, 2), (11, 2)]
 
 
 def gen_conc_random(rng, stats):
-    maxMsg, nmsgs = rng.choice(SMALL_RINGS if rng.random() < 0.7 else RINGS)
-    chunk = rng.choice([0, 0, 1, 2, 3, 4, 5, 8])
+    x = rng.random()
+    maxMsg, nmsgs = rng.choice(SMALL_RINGS if x < 0.68 else (RINGS if x < 0.97 else BIG_RINGS))
+    chunk = rng.choice([0, 0, 1, 2, 3, 4, 5, 8]) if maxMsg <= 32 else rng.choice([0, 0, 7, 16, 64])
     nw = rng.randint(1, 5)
     nr = rng.randint(1, 8)
     wops = [wtoken(rng, msg_for_ring(rng, maxMsg, 0.08)) for _ in range(nw)]
@@ -221,7 +356,7 @@ def gen_conc_exhaustive(rng, stats, budget):
                         rops = "".join(rng.choice("rrlhk") for _ in range(nr))
                         if "r" not in rops and "l" not in rops and rng.random() < 0.7:
                             rops = rops[:-1] + "r"
-                        wtok = [rng.choice("wax") + hx(m) for m in ws]
+                        wtok = [rng.choice("waxb") + hx(m) for m in ws]
                         pre = 0
                         if warm is not None:
                             wtok = ["w" + hx(rand_msg(rng, warm))] + wtok
@@ -305,23 +440,41 @@ def tsan_soak(lines, stats):
     return verdicts
 
 
+_GEN_CALLS = 0
+
+
 def generate(rng, tier, stats):
     stats.update({"seq": 0, "seq_bundle": 0, "conc_random": 0, "soak": 0, "msg_sizes": {}, "ring_sizes": {}, "chunk": {}})
     nseq, nconc = (6000, 25000) if tier == "quick" else (60000, 150000)
     for i in range(nseq):
         b = i % 40 == 7
+        if i % 12 == 5:
+            yield gen_seq_fill(rng, stats)
+            continue
         stats["seq_bundle" if b else "seq"] += 1
         yield gen_seq(rng, stats, bundles=b)
+    for _ in range(1 if tier == "quick" else 3):
+        yield gen_seq_fill(rng, stats, ring=HUGE_RING)
+    for _ in range(1 if tier == "quick" else 4):
+        yield gen_seq_hang(rng, stats)
     for _ in range(nconc):
         stats["conc_random"] += 1
         yield gen_conc_random(rng, stats)
     if tier == "thorough":
         for op in gen_conc_exhaustive(rng, stats, 300000):
             yield op
-    soaks = ["soak 32 4 20000 %d" % rng.randint(1, 1000)] if tier == "quick" else \
+    # two free-running threads; every soak line is also run in the -fsanitize=thread build (both tiers)
+    soaks = ["soak 32 4 20000 %d" % rng.randint(1, 1000), "soak 1024 70 4000 %d" % rng.randint(1, 1000)] \
+        if tier == "quick" else \
             ["soak 32 4 400000 %d" % rng.randint(1, 1000), "soak 12 2 200000 %d" % rng.randint(1, 1000),
-             "soak 21 3 200000 %d" % rng.randint(1, 1000)]
-    verdicts = tsan_soak(soaks, stats) if tier == "thorough" else ["tsan=notrun"] * len(soaks)
+             "soak 21 3 200000 %d" % rng.randint(1, 1000), "soak 1024 70 100000 %d" % rng.randint(1, 1000),
+             "soak 100 7 100000 %d" % rng.randint(1, 1000)]
+    global _GEN_CALLS
+    _GEN_CALLS += 1
+    if _GEN_CALLS > 1:          # the runner's search phase: the race detector has had its say in the main phase
+        verdicts = ["tsan=notrun"] * len(soaks)
+    else:
+        verdicts = tsan_soak(soaks, stats)
     stats["tsan_verdicts"] = verdicts
     for s, v in zip(soaks, verdicts):
         stats["soak"] += 1
@@ -386,10 +539,22 @@ def oracle_seq(w, out):
 
 
 def oracle_conc(w, out):
-    """Reference FIFO driven by the linearisation points in the implementation's access trace:
-    a write is decided where the writer loads `read`, published where it stores `write`; a
-    hasNext/read is decided where the reader loads `write`; space is released where the reader
-    stores `read`."""
+    """Reference FIFO evaluated on the implementation's own trace.  Shared accesses are attributed
+    to operations by the begin/end markers the harness puts around every call (`bw<i>`/`ew<i>`,
+    `br<i>`/`er<i>`), never by counting loads, so an implementation that looks at an index more
+    often, less often or not at all for an operation that needs no look is judged by what it returns:
+
+    * a write is *accepted* only if the message fitted into the free space when it last looked at the
+      read index before copying (if it never looked: when it began to copy), and *dropped* only if it
+      did not fit when it first looked (never looked: when the operation began); free space = capacity
+      minus bytes accepted plus bytes the reader has released by advancing the read index;
+    * a message is published where the write index advances; advancing it twice in one write, or
+      copying into the ring after it, exposes a half-written message to the reader;
+    * hasNext/read are judged against the messages published when the reader last (for "there is
+      one") / first (for "there is none") loaded the write index inside the operation, or at the
+      end / begin of the operation if it did not load it at all;
+    * a consuming read must advance the read index, after its last copy out of the ring; nothing else
+      may advance it."""
     maxMsg, nmsgs = int(w[1]), int(w[2])
     cap = maxMsg * nmsgs - 1
     parts = out.split()
@@ -405,93 +570,146 @@ def oracle_conc(w, out):
         return "writer reported %d results for %d operations" % (len(flags), len(wops))
     if len(routs) != len(rops):
         return "reader reported %d results for %d operations" % (len(routs), len(rops))
-    # writer operations that touch shared state at all (raw_write of an oversized message does not)
-    loud = []
-    for i, t in enumerate(wops):
-        m = wmsg(t)
-        if t[0] == "x" and len(m) > maxMsg:
-            if flags[i] != "d":
-                return "raw_write %d of a message longer than MaxMsg was accepted" % i
-        else:
-            loud.append(i)
-    wi = -1           # index into loud: current writer op
-    ri = -1           # current reader op
     published = []
-    acc_bytes = 0     # bytes the writer has accepted
+    acc_bytes = 0     # bytes of accepted messages
     rel_bytes = 0     # bytes the reader has released
     consumed = 0
     la = 0
-    pending_pub = None
-    pending_rel = None
+    windex = 0
+    rindex = 0
+    W = None          # writer operation in progress
+    R = None
+    nw = nr = 0
+
+    def free():
+        return cap - (acc_bytes - rel_bytes)
+
     for ev in trace:
         k = ev[:2]
-        if k == "lr":
-            wi += 1
-            if wi >= len(loud) or pending_pub is not None:
-                return "unexpected writer access " + ev
-            i = loud[wi]
-            m = wmsg(wops[i])
-            eff = m if len(m) <= maxMsg else b""          # write() encodes into MaxMsg bytes: too long -> nothing
-            free = cap - (acc_bytes - rel_bytes)
-            fits = len(eff) <= free
-            acc = fits and len(eff) > 0
-            if (flags[i] == "a") != acc:
-                return "write %d (%d bytes, %d bytes free when it looked): %s" % (
-                    i, len(m), free, "dropped although it fits" if acc else "accepted although it cannot be")
-            if fits:
-                pending_pub = eff
-                acc_bytes += len(eff)
-        elif k == "sw":
-            if pending_pub is None:
-                return "write index stored outside an accepted write: " + ev
-            if pending_pub:
-                published.append(pending_pub)
-            pending_pub = None
-        elif k == "ci":
-            pass                           # where the bytes are copied is the implementation's business
-        elif k == "lw":
-            ri += 1
-            if pending_rel is not None:
-                return "read %d never stored the read index" % (ri - 1)
-            if ri >= len(rops):
-                return "unexpected reader access " + ev
-            c = rops[ri]
-            if c == "h":
-                exp = "h1" if len(published) > consumed else "h0"
-            elif c == "k":
-                exp = "k1" if len(published) > la else "k0"
-            elif c == "r":
-                if len(published) > consumed:
-                    exp = "r" + hx(published[consumed])
-                    pending_rel = len(published[consumed])
-                    consumed += 1
-                else:
-                    exp = "r-"
-                    pending_rel = 0
-                la = consumed
+        if k == "bw":
+            if W is not None or int(ev[2:]) != nw:
+                return "writer operations out of order at " + ev
+            m = wmsg(wops[nw])
+            W = {"i": nw, "m": m, "eff": m if len(m) <= maxMsg else b"", "flag": flags[nw], "free0": free(),
+                 "lr_first": None, "lr_last": None, "copy_free": None, "pub": False}
+        elif k == "ew":
+            if W is None or int(ev[2:]) != W["i"]:
+                return "writer operations out of order at " + ev
+            need = len(W["eff"])
+            if W["flag"] == "a":
+                if need == 0:
+                    return "write %d of a message longer than MaxMsg (%d bytes) was accepted" % (W["i"], len(W["m"]))
+                if not W["pub"]:
+                    return "write %d reports accepted but the write index never advanced in the trace" % W["i"]
+                seen = W["lr_last"] if W["lr_last"] is not None else (W["copy_free"] if W["copy_free"] is not None else free())
+                if need > seen:
+                    return "write %d (%d bytes, %d bytes free when it looked): accepted although it cannot be" % (
+                        W["i"], need, seen)
+                acc_bytes += need
             else:
-                if len(published) > la:
-                    exp = "l" + hx(published[la])
-                    la += 1
-                else:
-                    exp = "l-"
-            if routs[ri] != exp:
-                return "reader op %d (%s) with %d messages published when it looked: a FIFO gives %s, implementation %s" % (
-                    ri, c, len(published), exp, routs[ri])
-        elif k == "sr":
-            if ri < 0 or rops[ri] != "r":
-                return "read index stored outside a read: " + ev
-            if pending_rel is not None:    # the first store of the read index releases the space
-                rel_bytes += pending_rel
-                pending_rel = None
+                if W["pub"]:
+                    return "write %d advanced the write index but reports dropped" % W["i"]
+                seen = W["lr_first"] if W["lr_first"] is not None else W["free0"]
+                if need > 0 and need <= seen:
+                    return "write %d (%d bytes, %d bytes free when it looked): dropped although it fits" % (
+                        W["i"], need, seen)
+            W = None
+            nw += 1
+        elif k == "lr":
+            if W is None:
+                return "writer access outside an operation: " + ev
+            if W["copy_free"] is None and not W["pub"]:
+                W["lr_last"] = free()
+            if W["lr_first"] is None:
+                W["lr_first"] = free()
+        elif k == "ci":
+            if W is None:
+                return "writer access outside an operation: " + ev
+            if W["pub"]:
+                return "write %d copies into the ring after it has advanced the write index (%s): a reader can see " \
+                       "a half-written message" % (W["i"], ev)
+            if W["copy_free"] is None:
+                W["copy_free"] = free()
+        elif k == "sw":
+            if W is None:
+                return "writer access outside an operation: " + ev
+            v = int(ev[2:])
+            if v != windex:
+                if W["pub"]:
+                    return "write %d advances the write index twice (%s): a reader can see a half-written message" % (
+                        W["i"], ev)
+                W["pub"] = True
+                windex = v
+                published.append(W["eff"])
+        elif k == "br":
+            if R is not None or int(ev[2:]) != nr:
+                return "reader operations out of order at " + ev
+            R = {"i": nr, "c": rops[nr], "out": routs[nr], "pub0": len(published), "lw_first": None, "lw_last": None,
+                 "rel": False}
+        elif k == "er":
+            if R is None or int(ev[2:]) != R["i"]:
+                return "reader operations out of order at " + ev
+            hi = R["lw_last"] if R["lw_last"] is not None else len(published)
+            lo = R["lw_first"] if R["lw_first"] is not None else R["pub0"]
+            c, o = R["c"], R["out"]
+            cur = consumed if c in "hr" else la
+            some = o not in ("h0", "k0", "r-", "l-")
+            if some and hi <= cur:
+                return "reader op %d (%s) returned %s with %d messages published when it looked and %d already %s" % (
+                    R["i"], c, o, hi, cur, "consumed" if c in "hr" else "seen by the lookahead")
+            if not some and lo > cur:
+                return "reader op %d (%s) found nothing although %d messages were published when it looked and only " \
+                       "%d %s" % (R["i"], c, lo, cur, "consumed" if c in "hr" else "seen by the lookahead")
+            if c in "hk":
+                if o not in (c + "0", c + "1"):
+                    return "reader op %d: malformed result %s" % (R["i"], o)
+            elif some:
+                exp = c + hx(published[cur])
+                if o != exp:
+                    return "reader op %d (%s) with %d messages published when it looked: a FIFO gives %s, " \
+                           "implementation %s" % (R["i"], c, hi, exp, o)
+            if c == "r":
+                if some and not R["rel"]:
+                    return "read %d returned a message but never advanced the read index" % R["i"]
+                if some:
+                    consumed += 1
+                la = consumed
+            elif c == "l" and some:
+                la += 1
+            R = None
+            nr += 1
+        elif k == "lw":
+            if R is None:
+                return "reader access outside an operation: " + ev
+            R["lw_last"] = len(published)
+            if R["lw_first"] is None:
+                R["lw_first"] = len(published)
         elif k in ("fr", "co"):
-            pass
+            if R is None:
+                return "reader access outside an operation: " + ev
+            if k == "co" and R["rel"]:
+                return "read %d copies out of the ring after it has advanced the read index (%s): the writer may " \
+                       "already overwrite those bytes" % (R["i"], ev)
+        elif k == "sr":
+            if R is None:
+                return "reader access outside an operation: " + ev
+            v = int(ev[2:])
+            if v != rindex:
+                if R["c"] != "r":
+                    return "read index advanced by operation %d (%s), which consumes nothing" % (R["i"], R["c"])
+                if R["rel"]:
+                    return "read %d advances the read index twice (%s)" % (R["i"], ev)
+                if consumed >= len(published):
+                    return "read %d advances the read index although nothing is queued" % R["i"]
+                R["rel"] = True
+                rindex = v
+                rel_bytes += len(published[consumed])
         else:
             return "unknown trace event " + ev
-    if pending_pub is not None or pending_rel is not None:
+    if W is not None or R is not None:
         return "an operation did not complete"
-    if wi != len(loud) - 1 or ri != len(rops) - 1:
-        return "operations without shared accesses: writer %d/%d reader %d/%d" % (wi + 1, len(loud), ri + 1, len(rops))
+    if nw != len(wops) or nr != len(rops):
+        return "operations missing from the trace: writer %d/%d reader %d/%d" % (nw, len(wops), nr, len(rops))
     if drained != published[consumed:]:
         return "after the run the queue holds %s, a FIFO holds %s" % (
             [hx(x) for x in drained], [hx(x) for x in published[consumed:]])
@@ -502,6 +720,13 @@ def oracle(op, out):
     w = op.split()
     if out.startswith("crash"):
         return "implementation crashed: " + out
+    # findings of the harness about the code it compiled, independent of the case
+    if " MO:" in out:
+        return "memory order weaker than the proofs assume (stores of the write/read index must be release or " \
+               "stronger, loads of the other thread's index acquire or stronger; C++11 DRF-SC does not apply): " + \
+               out[out.index(" MO:") + 4:].split()[0]
+    if out.endswith(" DECOY-BROKEN") or " DECOY-BROKEN " in out:
+        return "a second ThreadLink operated in between lost or corrupted a message (state shared between links)"
     if w[0] == "seq":
         return oracle_seq(w, out)
     if w[0] == "conc":
@@ -516,25 +741,64 @@ def oracle(op, out):
 
 
 # ---------------------------------------------------------------------------------------
-# known finding C06-K5: bundles are not self-delimiting inside the ring
+# known findings
+#   C06-K5: bundles are not self-delimiting inside the ring
+#   C06-K6: raw_write never returns on a bundle whose element sizes lead `pos` round in a circle
 # ---------------------------------------------------------------------------------------
+def wtokens(op):
+    w = op.split()
+    return w[3:] if w[0] == "seq" else (w[4].split(",") if w[0] == "conc" and w[4] != "-" else [])
+
+
 def has_bundle(op):
     """trigger predicate (Lean: Rtosc.Ring.HasBundle): some raw_write block starts with `#bundle\\0`"""
-    w = op.split()
-    toks = w[3:] if w[0] == "seq" else (w[4].split(",") if w[0] == "conc" and w[4] != "-" else [])
-    return any(t[0] == "x" and is_bundle(unhx(t[1:])) for t in toks)
+    return any(t[0] == "x" and is_bundle(unhx(t[1:])) for t in wtokens(op))
+
+
+def block_hangs(b):
+    """rtosc_message_length(msg,-1) on the block `b`: does the loop of bundle_ring_length come back to a
+    position it has visited, reading inside the block only?  (Lean: rawLen b = .hang)"""
+    if not is_bundle(b):
+        return False
+    pos = 16
+    seen = set()
+    while True:
+        if pos in seen:
+            return True
+        seen.add(pos)
+        if pos + 4 > len(b):
+            return False                      # would read outside the block: not this finding
+        adv = struct.unpack(">I", b[pos:pos + 4])[0]
+        if adv == 0:
+            return False
+        pos = (pos + ((4 + adv) & 0xffffffff)) & 0xffffffff
+
+
+def raw_write_hangs(op):
+    """trigger predicate (Lean: Rtosc.Ring.RawWriteHangs)"""
+    return any(t[0] == "x" and len(t) > 1 and block_hangs(unhx(t[1:])) for t in wtokens(op))
+
+
+HANG_OUTS = ("crash:signal:27", "crash:signal:14", "crash:timeout")
 
 
 def known(op, impl_out, model_out, defs):
-    if not has_bundle(op) or impl_out.startswith("crash"):
+    if not has_bundle(op):
         return None
     if model_out is None:                     # search phase of the runner: ask the (defect-mirroring) model here
         r = driver_lines([op])
         model_out = r[0] if r else None
-    for d in defs:
-        if d.get("id") == "C06-K5" and has_bundle(op) and model_out is not None and impl_out == model_out \
-                and not impl_out.startswith("crash"):
-            return "C06-K5"
+    if model_out is None:
+        return None
+    ids = set(d.get("id") for d in defs)
+    if impl_out.startswith("crash"):
+        # K6: the line never finishes on the implementation side and the model says exactly that
+        if "C06-K6" in ids and op.startswith("seq ") and raw_write_hangs(op) and impl_out in HANG_OUTS and \
+                (model_out == "hang" or model_out.endswith(" hang")):
+            return "C06-K6"
+        return None
+    if "C06-K5" in ids and impl_out == model_out:
+        return "C06-K5"
     return None
 
 
